@@ -2,7 +2,7 @@
 from ..rules_vector import Checker
 from ..corpus import FilterRec
 from ..rules_bounds import rule_B1, rule_B3, rule_B3u
-from ..rules_layout import rule_P2, rule_P1e, rule_stride_inv
+from ..rules_layout import rule_P2, rule_P1e, rule_stride_inv, rule_fit
 from ..rules_own import discover_owners, null_writes
 from ._common import run_vector, vector_configs
 from .. import config
@@ -17,6 +17,7 @@ def rule(tu, rec):
     rule_P2(ck2, "P2")
     rule_P1e(ck2, "P1e")
     rule_stride_inv(ck, "INV-S")
+    rule_fit(ck, "FIT")
     owners = discover_owners(tu)
     null_writes(ck, owners, "NULLW", fns=("w_copy_ctor", "w_move_ctor", "w_copy_assign", "w_move_assign", "w_swap", "w_dtor", "w_clear", "w_reserve"))
 
